@@ -156,3 +156,23 @@ from contracts.c08 import CH, u_epoch_chain_append  # noqa: E402
 
 unit("C19.unthinned_chain_keeps_every_transition", "C19", [f"{CH}::ListEpochChain.__init__", f"{CH}::ListEpochChain.append", f"{CH}::ListChain.append"],
      assumptions=["np.arange / boolean-mask selection / np.s_ modelled as index sets"])(u_epoch_chain_append)
+
+
+@unit("C19.minimised_transition_info_keeps_the_error_code", "C19", ["liesel/goose/kernel.py::DefaultTransitionInfo.minimize"],
+      assumptions=["the three kernel-independent fields are arbitrary arrays (any dtype, any value); dtype / cast semantics of S4''"])
+def u_minimize(ip):
+    """with minimize_transition_infos the engine stores info.minimize() instead of info: for the default info type and the HMC / NUTS types that
+    inherit it, the minimised info carries exactly the error code of the original (same value, not narrowed, wrapped or re-computed) - so the error bookkeeping that reads the stored infos counts what the kernels returned."""
+    c = ip.ctx
+    for rel, cls, extra in (("liesel/goose/kernel.py", "DefaultTransitionInfo", ()), ("liesel/goose/hmc.py", "HMCTransitionInfo", ("divergent",)),
+                            ("liesel/goose/nuts.py", "NUTSTransitionInfo", None)):
+        C = ip.repo(f"{rel}::{cls}")
+        names = ["error_code", "acceptance_prob", "position_moved"]
+        if extra is None:
+            import ast as _ast
+            extra = [st.target.id for st in C.node.body if isinstance(st, _ast.AnnAssign) and st.target.id not in names]
+        vals = {n: z3.Const(f"{cls}_{n}", U) for n in names + list(extra)}
+        info = ip.call(C, [], dict(vals))
+        m = ip.call(method(ip, info, "minimize"), [], {})
+        # only the error code is part of the property's statement (a narrowed 0/1 moved flag would be harmless and must not raise an alarm)
+        c.oblige(f"{cls}.error_code_unchanged", ip.to_U(ip.getattr(m, "error_code")) == vals["error_code"])
